@@ -26,7 +26,7 @@ RULE = ('per run: target in {exact TT rank 1..4 with random cores, 1/(2+sum(i_k+
         '2..20, non-uniform, including sizes smaller than rank+kick; eps=10^-k, k in 3..10; API in {dmrg_cross, dmrg_cross with start '
         'tensor, function_interpolate univariate, multivariate (+start tensor)}; the user function is the simulator\'s peer: every '
         'request is validated (shape, dtype, index range / membership of the values in the argument tensors) and recorded; global torch '
-        'PRNG seeded per run; primary SVD failures on 25% of runs (at seeded call indices, or at seeded fractions of the measured number of SVD calls so that late calls fail too); distinct by (api, target, order, eps decade, small-mode flag, '
+        'PRNG seeded per run; primary SVD failures on 25% of runs (at seeded call indices, or at seeded fractions of the measured number of SVD calls so that late calls fail too); 10-12% of runs are preceded in the same process by the same routine on other data of the same structure (history independence); distinct by (api, target, order, eps decade, small-mode flag, '
         'start tensor, fault kind)')
 ASSUMPTIONS = ['single-threaded BLAS', 'oracle constant C=10 on the relative error; targets have TT ranks <= 4 or fast-decaying ranks',
                'the peer answers from the exact dense tensor; the clamp that keeps it answering after an invalid request is not part of the oracle']
@@ -67,6 +67,9 @@ def gen_case(rng):
         p['plan'] = {'P': [], 'Q': [], 'all': True, 'kind': 'all'}
     else:
         p['plan'] = None
+    # history dimension: the checked call is preceded, in the same process, by the same routine on other data of the same
+    # structure (values from the seed below)
+    p['prelude'] = rng.getrandbits(31) if rng.random() < 0.12 else None
     return p
 
 
@@ -290,6 +293,17 @@ def exec_case(p, res):
             peer0, _, x0_, start0 = build(p)       # a separate peer: the counting run must not touch the recorded one
             return call(p, peer0, x0_, start0)
         p = dict(p, plan=svdfault.resolve_fractions(p['plan'], _count))
+    if p.get('prelude') is not None:
+        # history dimension: an earlier interpolation of another function on the same grid in this process (with its own
+        # peer); the checked call must not depend on it (memoised samples, reused index sets)
+        pp = dict(p, vseed=p['prelude'], plan=None, prelude=None)
+        try:
+            peer2, _, x2, start2 = build(pp)
+            seams.seed_global(p['tseed'] ^ 0x5a5a5a)
+            call(pp, peer2, x2, start2)
+        except Exception:
+            core.bump(stats, 'history.prelude_raised')
+        core.bump(stats, 'probe.call_with_history')
     seams.seed_global(p['tseed'])
     y, exc, f = svdfault.run_with_plan(lambda: call(p, peer, x, start), p['plan'] or {})
     svdfault.branch_stats(f, stats)
@@ -356,6 +370,8 @@ def shrink_candidates(desc):
     p = desc['case']
     if p.get('plan'):
         yield {'case': dict(p, plan=None)}
+    if p.get('prelude') is not None:
+        yield {'case': dict(p, prelude=None)}
     d = len(p['N'])
     if d > 2:
         yield {'case': dict(p, N=p['N'][:-1], R=p['R'][:-2] + [1])}
